@@ -7,11 +7,6 @@ From Falcon Require Import Base.Res IL.Const IL.Expr IL.Func IL.Loc IL.LocProofs
 Import ListNotations.
 Local Open Scope Z_scope.
 
-(* words leading from the entry to the end of the exit block *)
-Definition clang (g : cfg) (w : list label) : Prop :=
-  exists e x ops, g_entry g = Some e /\ g_exit g = Some x /\ block_ops g x = Some ops /\
-                  srun g (e, O) w (x, length ops).
-
 Definition is_block (g : cfg) (b : Z) : Prop := block_ops g b <> None.
 
 Section AppendSim.
